@@ -44,7 +44,22 @@ class _Picklable:
 
 class FakeTxState(_Picklable):
     """Stands for dbstate.CompilerConnectionState: remembers the root user
-    schema it was given and the requests it has seen."""
+    schema it was given and the requests it has seen.  Like the real one it does
+    NOT carry the root user schema through pickling (``__getstate__`` drops it,
+    ``root_user_schema`` asserts that somebody has set it again)."""
+
+    def __getstate__(self):
+        d = dict(self.__dict__)
+        d['root'] = None
+        return d
+
+    def __setstate__(self, d):
+        self.__dict__.update(d)
+
+    @property
+    def root_user_schema(self):
+        assert self.root is not None
+        return self.root
 
     def set_root_user_schema(self, us):
         self.root = us
@@ -86,7 +101,7 @@ class EchoCompiler:
             # a compile error half-way may already have touched the live state
             cstate.seen = cstate.seen + [('failed', tag)]
             raise InjectedCompileError(tag)
-        e = ('echo_tx', tag, cstate.root, cstate.txid, list(cstate.seen), txid)
+        e = ('echo_tx', tag, cstate.root_user_schema, cstate.txid, list(cstate.seen), txid)
         cstate.seen = cstate.seen + [tag]
         return e, cstate
 
